@@ -144,8 +144,7 @@ Fixpoint bloop (fuel : nat) (p : list rune) : option (list rune * list rune * bo
     | 92 :: p' =>
       match p' with
       | [] => None
-      | r :: p'' => if r =? RuneError then None
-                    else cont (if esc_in_bracket r then [92; r] else [r]) p'' false
+      | r :: p'' => cont (if esc_in_bracket r then [92; r] else [r]) p'' false
       end
     | r :: p' => cont [r] p' false
     end
@@ -198,8 +197,7 @@ Fixpoint citems (fuel : nat) (greedy : bool) (p : list rune) : cres (list (ritem
     | 92 :: p' =>
       match p' with
       | [] => CErr
-      | r :: p'' => if r =? RuneError then CErr   (* compile writes the rune twice after the backslash *)
-                    else cont (RLit r, if esc_top r then 92 :: txt [r] else txt [r]) p''
+      | r :: p'' => cont (RLit r, if esc_top r then 92 :: txt [r] else txt [r]) p''
       end
     | r :: p' => cont (RLit r, if esc_raw r then 92 :: txt [r] else txt [r]) p'
     end
